@@ -674,7 +674,9 @@ func checkRuntimeAPIAddress(c *report.Ctx) {
 				if fs == "%s:%d" && len(vals) == 2 {
 					h, _ := an.CallOf(an.Strip(vals[0], true))
 					p, _ := an.CallOf(an.Strip(vals[1], true))
-					ok = h != nil && p != nil && an.Callee(h) == "L/rapi.Server.Host" && an.Callee(p) == "L/rapi.Server.Port" && h.Call.Args[0] == srv && p.Call.Args[0] == srv && srv != nil
+					// the receiver is the server object stored in the context: the same value, or a read of that field
+					isSrv := func(v ssa.Value) bool { return v == srv || loadOf(rapidCtxT, "server")(v) }
+					ok = h != nil && p != nil && an.Callee(h) == "L/rapi.Server.Host" && an.Callee(p) == "L/rapi.Server.Port" && isSrv(h.Call.Args[0]) && isSrv(p.Call.Args[0]) && srv != nil
 				}
 			}
 		}
